@@ -132,7 +132,8 @@ theorem spOuts_touched_tx (b : Block) (t : Tx) (ht : t ∈ b.txs) (p : OutPoint)
 agrees with the new fold. -/
 theorem detachOne_inv (s : State) (v : View) (b : Block) (rest : List Block) (h : Inv s)
     (hch : s.chainRev = b :: rest) (hv : VAgree v (utxoRev s.chainRev)) :
-    ∃ s' v', detachOne s v = some (s', v') ∧ Inv s' ∧ s'.chainRev = rest ∧ VAgree v' (utxoRev rest) := by
+    ∃ s' v', detachOne s v = some (s', v') ∧ Inv s' ∧ s'.chainRev = rest ∧ VAgree v' (utxoRev rest) ∧
+      s'.totalTxns = s.totalTxns - (1 + b.txs.length) := by
   have hj := h.journal; have hval := h.valid; have hnd := h.nodup; have habs := h.abs_eq
   rw [hch] at hj hval hnd habs hv
   obtain ⟨hjb, hjrest⟩ := hj
@@ -185,7 +186,7 @@ theorem detachOne_inv (s : State) (v : View) (b : Block) (rest : List Block) (h 
           · simp only [slotPut]; split <;> simp [h1.1, hw]
           · exact (hT h1.1).elim
   refine ⟨_, _, rfl, ⟨cinv_empty _, ?_, ?_, hvrest, ?_, ⟨[], rest, rfl, rfl, hdb⟩,
-    fun x hx => h.nonzero x (by rw [hch]; exact List.mem_cons_of_mem _ hx)⟩, rfl, ?_⟩
+    fun x hx => h.nonzero x (by rw [hch]; exact List.mem_cons_of_mem _ hx)⟩, rfl, ?_, rfl⟩
   · show abs emptyCache (putView v1 (writeCache cv.1 s.db)) = utxoRev rest
     rw [abs_empty, hdb]
   · have hid : b.id ∉ rest.map (·.id) := (List.nodup_cons.mp hnd).1
@@ -229,21 +230,25 @@ theorem detachOne_inv (s : State) (v : View) (b : Block) (rest : List Block) (h 
           · simp only [] at hs; rw [hval'.2] at hs; simp at hs
 
 theorem detachMany_inv (n : Nat) : ∀ (s : State) (v : View), Inv s → n ≤ s.chainRev.length →
-    VAgree v (utxoRev s.chainRev) →
+    VAgree v (utxoRev s.chainRev) → TT s →
     ∃ s' v', detachMany n s v = some (s', v') ∧ Inv s' ∧ s'.chainRev = s.chainRev.drop n ∧
-      VAgree v' (utxoRev s'.chainRev) := by
+      VAgree v' (utxoRev s'.chainRev) ∧ TT s' := by
   induction n with
-  | zero => intro s v h _ hv; exact ⟨s, v, rfl, h, by simp, hv⟩
+  | zero => intro s v h _ hv ht; exact ⟨s, v, rfl, h, by simp, hv, ht⟩
   | succ n ih =>
-    intro s v h hn hv
+    intro s v h hn hv ht
     cases hch : s.chainRev with
     | nil => rw [hch] at hn; simp at hn
     | cons b rest =>
-      obtain ⟨s1, v1, h1, hi1, hc1, hv1⟩ := detachOne_inv s v b rest h hch hv
+      obtain ⟨s1, v1, h1, hi1, hc1, hv1, htt1⟩ := detachOne_inv s v b rest h hch hv
       have hn1 : n ≤ s1.chainRev.length := by rw [hc1]; rw [hch] at hn; simpa using hn
+      have ht1 : TT s1 := by
+        unfold TT at ht ⊢
+        rw [hch, totalTxns_cons] at ht
+        rw [htt1, hc1, ht]; omega
       rw [← hc1] at hv1
-      obtain ⟨s2, v2, h2, hi2, hc2, hv2⟩ := ih s1 v1 hi1 hn1 hv1
-      refine ⟨s2, v2, by simp only [detachMany, h1, h2], hi2, ?_, hv2⟩
+      obtain ⟨s2, v2, h2, hi2, hc2, hv2, ht2⟩ := ih s1 v1 hi1 hn1 hv1 ht1
+      refine ⟨s2, v2, by simp only [detachMany, h1, h2], hi2, ?_, hv2, ht2⟩
       rw [hc2, hc1]; rfl
 
 end BV.C03.Lemmas
